@@ -80,6 +80,50 @@ func toTask(v interface{}) specTask {
 	return t
 }
 
+// earlyEvents reports Event tasks sitting in a real queue for a binding that the specification still holds locked
+// (monitor started, Synchronization not completed successfully).
+func earlyEvents(st State, got map[string][]specTask) string {
+	ms, ok := st["mstate"].(map[string]interface{})
+	if !ok {
+		return ""
+	}
+	for q, l := range got {
+		for _, t := range l {
+			if t.Type != "HookRun" {
+				continue
+			}
+			for _, cx := range t.Ctxs {
+				if cx.K == "Event" && fmt.Sprint(ms[t.Hook+"/"+cx.B]) == "started" {
+					return fmt.Sprintf("queue %s holds an Event task of binding %s/%s although the Synchronization of that binding has not completed", q, t.Hook, cx.B)
+				}
+			}
+		}
+	}
+	return ""
+}
+
+// heldAfterUnlock reports a binding that the specification has unlocked (Synchronization completed successfully)
+// while the real monitor still holds events back or is not enabled.
+func heldAfterUnlock(st State, f *opfix.Fixture) string {
+	ms, ok := st["mstate"].(map[string]interface{})
+	if !ok {
+		return ""
+	}
+	for p, v := range ms {
+		if fmt.Sprint(v) != "unlocked" {
+			continue
+		}
+		k := strings.LastIndex(p, "/")
+		if k < 0 {
+			continue
+		}
+		if got := f.Buffered(p[:k], p[k+1:]); got > 0 {
+			return fmt.Sprintf("binding %s still holds back %d Events although its Synchronization has completed successfully", p, got)
+		}
+	}
+	return ""
+}
+
 func specQueues(st State) map[string][]specTask {
 	out := map[string][]specTask{}
 	for q, v := range st["queues"].(map[string]interface{}) {
@@ -323,8 +367,25 @@ func replayCase(n int, c Case, hookbin string) Result {
 		return bad(0, "DIV/bootstrap", err.Error())
 	}
 	// the bootstrap content of main is state 1 of the behaviour
-	if sig, d := classify("Init", "", specQueues(c.Steps[0]), realQueues(f)); sig != "" {
-		return bad(0, "C06/bootstrap-order", d)
+	{
+		want, got := specQueues(c.Steps[0]), realQueues(f)
+		for q := range want {
+			if _, ok := got[q]; !ok {
+				// the bootstrap content may differ too: keep both statements
+				if _, d := classify("Init", "", want, got); d != "" {
+					res.Also = []SigDet{{"C06/bootstrap-order", d}}
+				}
+				return bad(0, "C03/queue-missing", fmt.Sprintf("no queue %s exists after the start although a binding names it: its tasks have nowhere to go", q))
+			}
+		}
+		for q := range want {
+			if len(want[q]) == 0 && len(got[q]) == 0 {
+				got[q] = want[q]
+			}
+		}
+		if sig, d := classify("Init", "", want, got); sig != "" {
+			return bad(0, "C06/bootstrap-order", d)
+		}
 	}
 	execID := map[string]string{}
 	lastFail := map[string]time.Time{}
@@ -530,6 +591,14 @@ func replayCase(n int, c Case, hookbin string) Result {
 			actq = fmt.Sprint(a[1])
 		}
 		if all := classifyAll(op, actq, specQueues(st), realQueues(f)); len(all) > 0 {
+			// an Event task of a binding whose Synchronization has not completed yet is a statement of its own
+			if early := earlyEvents(st, realQueues(f)); early != "" {
+				all = append([]SigDet{{"C06/event-before-synchronization", early}, {"C01/event-before-synchronization", early}}, all...)
+			}
+			// ... and so are Events still held back for a binding whose Synchronization has completed
+			if held := heldAfterUnlock(st, f); held != "" {
+				all = append(all, SigDet{"C01/held-back-after-unlock", held})
+			}
 			res.Also = all[1:]
 			return bad(i, all[0].Sig, all[0].Detail+fmt.Sprintf(" (after %v)", a))
 		}
@@ -544,6 +613,9 @@ func replayCase(n int, c Case, hookbin string) Result {
 					return bad(i, "C01/held-back-events", fmt.Sprintf("binding %s holds back %d Events, specification %d (after %v)", p, got, int(nn.(float64)), a))
 				}
 			}
+		}
+		if held := heldAfterUnlock(st, f); held != "" {
+			return bad(i, "C01/held-back-after-unlock", held+fmt.Sprintf(" (after %v)", a))
 		}
 		// no two hook processes of one queue at the same time: by construction of the stepping, a second process
 		// would have shown up as an unexpected execution
